@@ -73,6 +73,7 @@ void vk_end(const char *why) __attribute__((noreturn));
 
 extern void (*vk_block_hook)(int (*ready)(void *), void *ctx, long long deadline);
 extern void (*vk_yield_hook)(void);
+extern int vk_yield_after_kick;	/* scenario option Xkickyield (multi-threaded runs) */
 
 struct vk_fd *vk_get(int fd);
 void vk_user_fd(int i);			/* (re)create scripted descriptor 100+i, open, no conditions */
